@@ -179,6 +179,13 @@ def failure_case(asm, acc, case):
             src = os.path.join(root, 'nosuch.asm')
         elif fault == 'bad_include_dir':
             args_extra = ['-i', os.path.join(root, 'nosuchdir')]
+        o_arg = l_arg = None
+        if fault == 'out_missing_dir':
+            o_arg = os.path.join(root, 'nodir', 'out.bin')
+        elif fault == 'out_is_dir':
+            o_arg = os.path.join(root, 'adir')
+        elif fault == 'labels_missing_dir':
+            l_arg = os.path.join(root, 'nodir', 'labels.txt')
         if fault != 'missing_input':
             open(src, 'w').write('\n'.join(lines) + '\n')
         outp = os.path.join(root, 'out.bin')
@@ -192,8 +199,13 @@ def failure_case(asm, acc, case):
             old = time.time() - 1000
             for p in (outp, labp, hexp):
                 os.utime(p, (old, old))
-        before = {p: stat_of(p) for p in (outp, labp, hexp)}
-        args = [src, '-o', outp, '-l', labp] + (['-c'] if case['compress'] else [])
+        if fault == 'hex_is_dir':
+            if os.path.exists(hexp):
+                os.unlink(hexp)
+            os.makedirs(hexp)          # the Intel HEX file cannot be written
+        tracked = [p for p in (outp, labp, hexp) if not os.path.isdir(p)]
+        before = {p: stat_of(p) for p in tracked}
+        args = [src, '-o', o_arg or outp, '-l', l_arg or labp] + (['-c'] if case['compress'] else [])
         if fault != 'bad_hex_offset' and case.get('hex', True):
             args += ['--hex-offset', '0x08000000']
         args += args_extra
@@ -218,8 +230,8 @@ def failure_case(asm, acc, case):
                 return
             core.add_viol(acc, '%s exits with status 0' % desc, case, {'stderr': r.stderr[-300:]})
             return
-        after = {p: stat_of(p) for p in (outp, labp, hexp)}
-        for p in (outp, labp, hexp):
+        after = {p: stat_of(p) for p in tracked}
+        for p in tracked:
             if after[p] != before[p]:
                 what = 'created' if before[p] is None else ('removed' if after[p] is None else 'modified (%r -> %r)' % (before[p][3][:16], after[p][3][:16]))
                 core.add_viol(acc, '%s: %s was %s although the run failed (exit %d)' % (desc, os.path.basename(p), what, r.returncode), case,
@@ -254,7 +266,7 @@ def plan(tier, seed):
                       'hex': hexes[i % len(hexes)], 'defs': i % 7 == 0, 'big': i % 4 == 1})
     reps = 1 if tier == 'quick' else 6
     for rep in range(reps):
-        for fault in list(NATURAL) + ['bad_hex_offset', 'missing_input', 'bad_include_dir']:
+        for fault in list(NATURAL) + ['bad_hex_offset', 'missing_input', 'bad_include_dir', 'out_missing_dir', 'out_is_dir', 'labels_missing_dir', 'hex_is_dir']:
             for compress in (False, True):
                 for present in (True, False):
                     cases.append({'what': 'failure', 'fault': fault, 'compress': compress, 'present': present, 'kind2': '', 'rep': rep})
@@ -275,7 +287,7 @@ def gates(acc, tier):
     if acc['ctr']['hex_files_decoded'] == 0 and not acc['nviol']:
         g.append('no Intel HEX file was decoded')
     seen = acc['seen'].get('faults', set())
-    need = set(NATURAL) | {'bad_hex_offset', 'missing_input', 'bad_include_dir'} | {'inject:%s/%s' % (f, k) for f in FUNCS for k in ('asm', 'runtime')}
+    need = set(NATURAL) | {'bad_hex_offset', 'missing_input', 'bad_include_dir', 'out_missing_dir', 'out_is_dir', 'labels_missing_dir', 'hex_is_dir'} | {'inject:%s/%s' % (f, k) for f in FUNCS for k in ('asm', 'runtime')}
     if need - seen:
         g.append('failure points never exercised: %s' % sorted(need - seen)[:5])
     if acc['ctr']['injection_not_reached']:
